@@ -75,7 +75,7 @@ def run_many_sites(run):
         if not bad:
             run.discharged += 1
         n = sum(int(o.split()[0]) for o in io if o.split()[0].isdigit())
-        run.stream('c11/many-sites', n, n, True, '1500 distinct call sites (generated source, five entry-point shapes), each logging once per pass for 2-3 passes, fast and default mode')
+        run.stream('c11/many-sites', n, n, True, '1525 distinct call sites (generated source, five entry-point shapes; 25 of them far down their file through //line directives: lines at and beyond 2^16, 2^17, 2^24 and at 10^9, file names other than the compiled one), each logging once per pass for 2-3 passes, fast and default mode')
     finally:
         shutil.rmtree(tmp, ignore_errors=True)
 
